@@ -497,6 +497,8 @@ class Gen:
         if r.random() < 0.3:
             from tsh import Pins
             c['timestamp'] = Pins.now + r.choice([-100, -1, 0, 1, 30, 59, 60, 61, 100])
+            if r.random() < 0.15:
+                c['timestamp'] = r.choice([0, 0, 1, 2 ** 31 - 1])       # the ends of the domain are timestamps too
         if r.random() < 0.1: c['num'] = self.rint()
         if r.random() < 0.1: c['flt'] = r.choice([0.5, 1.0, -2.0])
         if r.random() < 0.1: c['txt'] = 'hé'
